@@ -33,6 +33,15 @@ Matches(n, b) == /\ ObsDistinct(n)
 \* across calls, whatever the objects went through before.
 FinalOnly == "final_only" \in DOMAIN Tr /\ Tr.final_only
 
+\* C03 (driver c03.py, start-state / kept-array histories; Tr.lmown / Tr.eosown absent = nothing to say): the LM hands out arrays
+\* it KEEPS (row views of its table, memoised batches).  What those arrays say after the line - one entry per distinct (history,
+\* weights), thousandths of 1/M - must still be the LM's own distribution: "the model's own per-character scores" are not the
+\* decoder's to change (an insertion bonus folded into them in place is counted again by every later call).
+LmIntact == /\ ("lmown" \in DOMAIN Tr) =>
+                 \A j \in 1..Len(Tr.lmown) : \A c \in Chars : Tr.lmown[j].w[c] = 1000 * LMw(Tr.lmown[j].h, c)
+            /\ ("eosown" \in DOMAIN Tr) =>
+                 \A j \in 1..Len(Tr.eosown) : Tr.eosown[j].e = 1000 * EosW(Tr.eosown[j].h)
+
 TNext == /\ UNCHANGED tid
          /\ \/ /\ Tr.outcome = "ok" /\ Frame
                /\ (t + 1 < T) => Matches(t + 1, beam')
@@ -47,6 +56,7 @@ TNext == /\ UNCHANGED tid
                     \E q \in DOMAIN beam' :
                        /\ \A o \in DOMAIN beam' : Total(beam', q) >= Total(beam', o)
                        /\ Tr.hret = Hist0 \o q
+               /\ LmIntact
             \/ /\ Tr.outcome = "rejected" /\ Reject
             \/ /\ FinalOnly /\ Tr.outcome = "ok" /\ t + 1 < T /\ Frame      \* unobserved intermediate beam
 
